@@ -167,9 +167,6 @@ Record access := mkAcc { a_field : string; a_kind : rw; a_locks : list string; a
 Record callsite := mkCall { c_callee : string; c_locks : list string; c_inloop : bool; c_line : Z }.
 Record xcallsite := mkXCall { x_field : string; x_class : string; x_callee : string;
                               x_locks : list string; x_inloop : bool; x_line : Z }.
-(* what a destructor does beyond its body: at its closing brace it destroys the synchronisation members of the object
-   (d_destroys: member, line); before that it may join the object's thread: d_join = None - no join() on any path;
-   Some gs - join() on the paths selected by conditions that read the members gs ([] = unconditionally) *)
 (* one argument bound (decay-copied by std::bind / makeWeakCallback) into a functor that is handed to
    runInLoop/queueInLoop/runAfter/runAt/runEvery for the method pa_class::pa_callee.  pa_kind:
    "val" an owned copy (std::string, shared_ptr, weak_ptr, std::function, arithmetic, TimerId ...), "transfer" a pointer to
@@ -177,7 +174,14 @@ Record xcallsite := mkXCall { x_field : string; x_class : string; x_callee : str
    "view" a StringPiece, "ptr" a raw pointer into memory the caller owns, "ref" a std::ref: BORROWED - the functor
    reads memory whose lifetime the caller controls; "this" / "member": the raw `this` / a pointer to a member-owned object. *)
 Record postarg := mkPA { pa_class : string; pa_callee : string; pa_kind : string; pa_inloop : bool; pa_line : Z }.
-Record dtorinfo := mkDtor { d_destroys : list (string * Z); d_join : option (list string) }.
+(* one argument bound into a callback that is REGISTERED on another object: x->setXxxCallback(bind(&C::m, args...)).  The
+   callback lives as long as x (class ra_target) and is invoked on x's loop thread. *)
+Record regarg := mkRA { ra_target : string; ra_setter : string; ra_callee : string; ra_kind : string; ra_line : Z }.
+(* what a destructor does beyond its body: at its closing brace it destroys the synchronisation members of the object
+   (d_destroys: member, line); before that it may join the object's thread.  d_paths: the paths through the destructor's
+   body (its calls on `this` inlined): (joined, gs) - whether join() is executed on the path, and the members read by the
+   conditions along it.  (EventLoopThread: [(false,[loop_]); (true,[loop_])]; ThreadPool: [(false,[running_]); (true,[running_])].) *)
+Record dtorinfo := mkDtor { d_destroys : list (string * Z); d_paths : list (bool * list string) }.
 Record msummary := mkSummary {
   m_class : string; m_name : string; m_public : bool; m_kind : mkind;
   m_check_first : bool;                  (* first statement (debug asserts aside) is assertInLoopThread() *)
@@ -186,7 +190,9 @@ Record msummary := mkSummary {
   m_registers : list (string * string);  (* bound as a callback elsewhere *)
   m_tails : list (string * list string); (* (g, ms): after its last write of member g the body still uses the members ms
                                             (later accesses, locks held at that write and released afterwards) *)
+  m_taillocks : list (string * list string); (* (g, ms): the locks held at the last write of g, released afterwards *)
   m_postargs : list postarg;
+  m_regargs : list regarg;
   m_dtor : option dtorinfo }.
 Record fielddecl := mkFieldDecl { fd_class : string; fd_name : string; fd_atomic : bool; fd_sync : bool; fd_tls : bool }.
 Record ptable := mkTable { t_fields : list (string * string * pclass);
@@ -237,7 +243,7 @@ Definition access_ok (d : option fielddecl) (pc : pclass) (ctx : mctx) (locks : 
   | XExcl => true                                   (* not yet published: initialisation *)
   | _ =>
     match pc with
-    | PSync => true
+    | PSync => match d with Some d => fd_sync d | None => false end   (* checked against the declared type, like atomic *)
     | PAtomic => match d with Some d => fd_atomic d | None => false end
     | PThreadLocal => match d with Some d => fd_tls d | None => false end
     | PLoopConfined => match ctx with XLoop => true | _ => false end
@@ -431,18 +437,34 @@ Fixpoint assoc_tail (g : string) (l : list (string * list string)) : list string
 Definition thread_uses (t : msummary) : list string :=
   map a_field (m_accesses t) ++ flat_map a_locks (m_accesses t).
 
-Definition unjoined_uses (thr : list msummary) (j : option (list string)) : list string :=
-  match j with
-  | None => flat_map thread_uses thr
-  | Some gs => flat_map (fun g => flat_map (fun t => assoc_tail g (m_tails t)) thr) gs
-  end.
+(* does the object's own thread write member g (in its entry function)? *)
+Definition thread_writes (thr : list msummary) (g : string) : bool :=
+  existsb (fun t => existsb (fun a => seqb (a_field a) g && rw_eqb (a_kind a) W) (m_accesses t)) thr.
+
+(* what a thread entry function may still be using once another thread has seen its last write of g *)
+Definition tail_after (t : msummary) (g : string) : list string :=
+  assoc_tail g (m_tails t) ++ assoc_tail g (m_taillocks t).
+
+(* path-sensitive: a path of the destructor that executes join() is safe; a path that skips it is safe only if every
+   condition it took reads members the thread never writes (then their values are start()/stop()'s word that no thread is
+   alive); a condition on a member the thread itself writes proves nothing about what the thread does after that write;
+   a path that skips join() unconditionally leaves everything the thread uses exposed. *)
+Definition path_unjoined_uses (thr : list msummary) (p : bool * list string) : list string :=
+  if fst p then []
+  else match snd p with
+       | [] => flat_map thread_uses thr
+       | gs => flat_map (fun g => if thread_writes thr g then flat_map (fun t => tail_after t g) thr else []) gs
+       end.
+
+Definition unjoined_uses (thr : list msummary) (paths : list (bool * list string)) : list string :=
+  flat_map (path_unjoined_uses thr) paths.
 
 Definition teardown_violations (T : ptable) (S : list msummary) : list violation :=
   flat_map (fun m =>
     match m_dtor m with
     | None => []
     | Some d =>
-      let bad := unjoined_uses (thread_roots T S (m_class m)) (d_join d) in
+      let bad := unjoined_uses (thread_roots T S (m_class m)) (d_paths d) in
       flat_map (fun fl => if mem (fst fl) bad then [mkViol (m_class m) (m_name m) (fst fl) "destroy"] else [])
                (d_destroys d)
     end) S.
@@ -507,6 +529,21 @@ Definition useafter_violations (T : ptable) (S : list msummary) : list violation
     | _ => []
     end) (roots T S).
 
+(* callbacks registered on another object: the callback lives as long as that object and runs on its loop thread.  If the
+   object's lifetime is a shared_ptr reference count (it can outlive the registering object), whatever the callback
+   captures must be owned: the raw `this` of the registering object ("rawthis-callback") or a borrowed view/pointer
+   ("borrowed-callback") may be gone when the callback fires - unless the table justifies it. *)
+Definition callback_violations (T : ptable) (S : list msummary) : list violation :=
+  flat_map (fun m =>
+    flat_map (fun ra =>
+      if mem (ra_target ra) (t_shared T) && negb (lookup3 (m_class m) (m_name m) (ra_callee ra) (t_lifetime_ok T))
+      then if seqb (ra_kind ra) "this" || seqb (ra_kind ra) "member"
+           then [mkViol (m_class m) (m_name m) (ra_callee ra) "rawthis-callback"]
+           else if seqb (ra_kind ra) "view" || seqb (ra_kind ra) "ptr" || seqb (ra_kind ra) "ref"
+                then [mkViol (m_class m) (m_name m) (ra_callee ra) "borrowed-callback"]
+                else []
+      else []) (m_regargs m)) S.
+
 Definition viol_eqb (a b : violation) : bool :=
   seqb (v_class a) (v_class b) && seqb (v_site a) (v_site b) && seqb (v_what a) (v_what b) && seqb (v_kind a) (v_kind b).
 
@@ -518,7 +555,7 @@ Fixpoint dedup (l : list violation) : list violation :=
 
 Definition violations_raw (T : ptable) (S : list msummary) : list violation :=
   access_violations T S ++ call_violations T S ++ failfast_violations T S ++ coverage_violations T S
-  ++ borrow_violations T S ++ useafter_violations T S ++ teardown_violations T S.
+  ++ callback_violations T S ++ borrow_violations T S ++ useafter_violations T S ++ teardown_violations T S.
 Definition violations (T : ptable) (S : list msummary) : list violation := dedup (violations_raw T S).
 
 (* the obligation closed by vm_compute in Properties_C08.v: every violation of the regenerated summaries is a
